@@ -14,7 +14,7 @@ import (
 )
 
 func init() {
-	register("C03", "Decides the structural agreement between the delta encoder (package diff) and decoder (package merge): every value stored into a delta map is an encoded value (markRemoved(), markReplaced(_), a non-nil Diff(_,_) result, or compressReorderIndices(_) under the reorder key only) - never a raw input value; the scalar pass-through type lists of diff.markReplaced and merge.mergeReplaced are equal; markRemoved returns an empty []interface{} and merge.isRemoved tests exactly that; the reorder key written by diffArray equals merge.indicesReorderedKey; the kinds of the run tuple agree (encoder [first, count] vs how the decoder's loop uses the two components); index provenance in diffArray/computeReorderIndices/mergeArray (old[j] with j from indices computed over (old,new), tested != -1); Diff never stores through its arguments (every written map/slice is allocated in the same function); complex replaced values are wrapped after StripKey; each old-kind for which Diff emits a map delta has a decoding branch in Merge. Not decided: round-trip equality for all JSON pairs, Diff(x,x)=nil, JSON-serialisability, the TypeScript client (no TypeScript front end is installed; a text match would be a frozen fragment).", c03)
+	register("C03", "Decides the structural agreement between the delta encoder (package diff) and decoder (package merge): every value stored into a delta map is an encoded value (markRemoved(), markReplaced(_), a non-nil Diff(_,_) result, or compressReorderIndices(_) under the reorder key only) - never a raw input value; the scalar pass-through type lists of diff.markReplaced and merge.mergeReplaced are equal; markRemoved returns an empty []interface{} and merge.isRemoved tests exactly that; the reorder key written by diffArray equals merge.indicesReorderedKey; the kinds of the run tuple agree (encoder [first, count] vs how the decoder's loop uses the two components); index provenance in diffArray/computeReorderIndices/mergeArray (old[j] with j from indices computed over (old,new), tested != -1); Diff never stores through its arguments (every written map/slice is allocated in the same function); complex replaced values are wrapped after StripKey; each old-kind for which Diff emits a map delta has a decoding branch in Merge. diffArray diffs every new element against its old counterpart (no element matched by reorder key is assumed unchanged). Not decided: round-trip equality for all JSON pairs, Diff(x,x)=nil, JSON-serialisability, the TypeScript client (no TypeScript front end is installed; a text match would be a frozen fragment).", c03)
 }
 
 func c03(c *an.Ctx) {
